@@ -153,7 +153,10 @@ pub fn main(args: &[String]) -> i32 {
         let mut port = base;
         for (pi, po) in &points {
             for pat in &patterns {
-                // a late answer is only "in time" if the delay is below both periods
+                // a late answer is only "in time" if the delay is clearly below pong_timeout
+                if *pat == "late1" && *po < 2 {
+                    continue;
+                }
                 let k = match *pat {
                     "never" => 1,
                     "stops1" => 2,
